@@ -58,8 +58,14 @@ func (e *specEnv) evalBool(s *SpecExpr) Term {
 }
 
 // resolveType parses a Go type written in a contract.
+// keysetType is the spec-only type of the key set of a map[string]T (sort (Array Str Bool)).
+var keysetType = types.NewNamed(types.NewTypeName(0, nil, "keyset", nil), types.NewStruct(nil, nil), nil)
+
 func (x *Exec) resolveType(pkg *packages.Package, s string) types.Type {
 	s = strings.TrimSpace(s)
+	if s == "keyset" {
+		return keysetType
+	}
 	switch {
 	case strings.HasPrefix(s, "*"):
 		return types.NewPointer(x.resolveType(pkg, s[1:]))
@@ -260,6 +266,32 @@ func (e *specEnv) evalIdent(s *SpecExpr) (Term, types.Type) {
 		if v := x.findLocal(e.st, name); v != nil {
 			return x.loadVar(e.st, v), v.Type()
 		}
+		// the local may have been renamed: fall back to the declaration ordinal and type recorded
+		// on the unchanged tree
+		if hint, ok := x.w.LocalHints[x.fn.Name][name]; ok {
+			var ord int
+			var typ string
+			if i := strings.Index(hint, ":"); i > 0 {
+				fmt.Sscanf(hint[:i], "%d", &ord)
+				typ = hint[i+1:]
+			}
+			if ord < len(x.localList) {
+				v := x.localList[ord]
+				if _, inScope := e.st.vars[v]; inScope && v.Type().String() == typ {
+					note := fmt.Sprintf("%s -> %s", name, v.Name())
+					seen := false
+					for _, r := range x.rebound {
+						if r == note {
+							seen = true
+						}
+					}
+					if !seen {
+						x.rebound = append(x.rebound, note)
+					}
+					return x.loadVar(e.st, v), v.Type()
+				}
+			}
+		}
 	}
 	if o := e.pkg.Types.Scope().Lookup(name); o != nil {
 		switch o := o.(type) {
@@ -278,15 +310,27 @@ func (e *specEnv) evalIdent(s *SpecExpr) (Term, types.Type) {
 
 // findLocal finds a local variable of the function under verification by name.
 func (x *Exec) findLocal(st *State, name string) *types.Var {
+	// only variables of the function under verification itself (not of inlined helpers), the one
+	// declared last in source order among those in scope
 	var best *types.Var
-	for v := range st.vars {
+	for _, v := range x.localList {
 		if v.Name() == name {
-			if best == nil || v.Pos() > best.Pos() {
+			if _, ok := st.vars[v]; ok {
 				best = v
 			}
 		}
 	}
-	return best
+	if best != nil {
+		return best
+	}
+	for _, v := range x.paramVars {
+		if v.Name() == name {
+			if _, ok := st.vars[v]; ok {
+				return v
+			}
+		}
+	}
+	return nil
 }
 
 func (e *specEnv) evalBinary(s *SpecExpr) (Term, types.Type) {
@@ -645,6 +689,39 @@ func (e *specEnv) evalCall(s *SpecExpr) (Term, types.Type) {
 				d = e.boxPure(d, dt)
 			}
 			return x.ctx.App("spec_render", SStr, t, d), strT
+		case "keys":
+			// keys(m): the key set of a map with string keys (empty for a nil map)
+			m, mt := e.eval(args[0])
+			mm, ok := x.subst(types.Unalias(mt)).Underlying().(*types.Map)
+			if !ok {
+				e.fail("keys() needs a map")
+			}
+			mh := x.mapHeap(mm)
+			inner := sel(x.heapGet(e.st, mh.has, arraySort(SInt, arraySort(mh.ks, SBool))), m)
+			return ite(eq(m, intLit(0)), x.constArray(arraySort(mh.ks, SBool), tFalse), inner), keysetType
+		case "has":
+			d, _ := e.eval(args[0])
+			k, _ := e.eval(args[1])
+			return sel(d, k), boolT
+		case "sub":
+			// sub(d, e): d is a subset of e (uninterpreted, with the defining axioms below)
+			d, _ := e.eval(args[0])
+			f, _ := e.eval(args[1])
+			x.ctx.DeclFun("keyset_sub", []Sort{d.Sort, f.Sort}, SBool)
+			ks, _ := arrayParts(d.Sort)
+			x.ctx.Axiom(fmt.Sprintf("(forall ((d %s) (e %s)) (! (=> (forall ((k %s)) (=> (select d k) (select e k))) (keyset_sub d e)) :pattern ((keyset_sub d e))))", d.Sort, d.Sort, ks))
+			x.ctx.Axiom(fmt.Sprintf("(forall ((d %s) (e %s) (k %s)) (! (=> (and (keyset_sub d e) (select d k)) (select e k)) :pattern ((keyset_sub d e) (select d k))))", d.Sort, d.Sort, ks))
+			x.ctx.Axiom(fmt.Sprintf("(forall ((d %s) (e %s) (f %s)) (! (=> (and (keyset_sub d e) (keyset_sub e f)) (keyset_sub d f)) :pattern ((keyset_sub d e) (keyset_sub e f))))", d.Sort, d.Sort, d.Sort))
+			return mk(SBool, "keyset_sub", d, f), boolT
+		case "now":
+			// now(p): the current value of a parameter that the body reassigns (plain p is its entry value)
+			if args[0].Kind != "ident" {
+				e.fail("now() needs a parameter name")
+			}
+			if v := x.findLocal(e.st, args[0].Name); v != nil {
+				return x.loadVar(e.st, v), v.Type()
+			}
+			e.fail("unknown identifier %s", args[0].Name)
 		case "called":
 			// called("Name"): how many calls of the function (short name or full external name) happened so far on this path
 			if args[0].Kind != "str" {
@@ -680,6 +757,10 @@ func (e *specEnv) evalCall(s *SpecExpr) (Term, types.Type) {
 		if id := fn.Args[0]; id.Kind == "ident" {
 			if _, isBound := e.binds[id.Name]; !isBound && x.findLocalOrNil(e, id.Name) == nil {
 				if p := x.findPkgByName(e.pkg, id.Name); p != nil {
+					if tn, ok := p.Scope().Lookup(fn.Name).(*types.TypeName); ok && len(args) == 1 {
+						v, _ := e.eval(args[0]) // conversion to a named type of another package
+						return v, tn.Type()
+					}
 					o, _ := p.Scope().Lookup(fn.Name).(*types.Func)
 					if o == nil {
 						e.fail("unknown function %s.%s", id.Name, fn.Name)
@@ -695,7 +776,7 @@ func (e *specEnv) evalCall(s *SpecExpr) (Term, types.Type) {
 		if !ok {
 			e.fail("no method %s on %s", fn.Name, rt)
 		}
-		return e.applyFunc(m, &recv, args)
+		return e.applyFuncT(m, &recv, rt, args)
 	}
 	e.fail("cannot call %s", fn)
 	return Term{}, nil
@@ -704,23 +785,44 @@ func (e *specEnv) evalCall(s *SpecExpr) (Term, types.Type) {
 // nthResult evaluates the idx-th result of a multi-result pure call pkg.F(args).
 func (e *specEnv) nthResult(call *SpecExpr, idx int) (Term, types.Type) {
 	x := e.x
-	if call.Kind != "call" || call.Args[0].Kind != "field" || call.Args[0].Args[0].Kind != "ident" {
-		e.fail("second()/third() need a call pkg.F(args)")
+	if call.Kind != "call" || call.Args[0].Kind != "field" {
+		e.fail("second()/third() need a call pkg.F(args) or recv.M(args)")
 	}
 	fnE := call.Args[0]
-	p := x.findPkgByName(e.pkg, fnE.Args[0].Name)
-	if p == nil {
-		e.fail("unknown package %s", fnE.Args[0].Name)
+	var o *types.Func
+	var recvT *Term
+	var recvStatic types.Type
+	isPkg := false
+	if fnE.Args[0].Kind == "ident" {
+		if _, isBound := e.binds[fnE.Args[0].Name]; !isBound && x.findLocalOrNil(e, fnE.Args[0].Name) == nil {
+			if p := x.findPkgByName(e.pkg, fnE.Args[0].Name); p != nil {
+				isPkg = true
+				o, _ = p.Scope().Lookup(fnE.Name).(*types.Func)
+				if o == nil {
+					e.fail("unknown function %s.%s", fnE.Args[0].Name, fnE.Name)
+				}
+			}
+		}
 	}
-	o, _ := p.Scope().Lookup(fnE.Name).(*types.Func)
-	if o == nil {
-		e.fail("unknown function %s.%s", fnE.Args[0].Name, fnE.Name)
+	if !isPkg {
+		recv, rt := e.eval(fnE.Args[0])
+		obj, _, _ := types.LookupFieldOrMethod(rt, true, e.pkg.Types, fnE.Name)
+		m, ok := obj.(*types.Func)
+		if !ok {
+			e.fail("no method %s on %s", fnE.Name, rt)
+		}
+		o = m
+		recvT = &recv
+		recvStatic = rt
 	}
 	sig := o.Type().(*types.Signature)
 	if idx >= sig.Results().Len() {
 		e.fail("function %s has no result %d", o.Name(), idx)
 	}
 	var ts []Term
+	if recvT != nil {
+		ts = append(ts, *recvT)
+	}
 	for i, a := range call.Args[1:] {
 		v, vt := e.eval(a)
 		if i < sig.Params().Len() {
@@ -732,7 +834,7 @@ func (e *specEnv) nthResult(call *SpecExpr, idx int) (Term, types.Type) {
 		ts = ts[:1] // the error depends on the pattern only
 	}
 	rt := sig.Results().At(idx).Type()
-	return x.ctx.App(fmt.Sprintf("%s_r%d", pureName(o), idx), x.sortOf(rt), ts...), rt
+	return x.ctx.App(fmt.Sprintf("%s_r%d", methodSym(o, recvStatic), idx), x.sortOf(rt), ts...), rt
 }
 
 func specTypeText(s *SpecExpr) string {
@@ -806,6 +908,10 @@ func (e *specEnv) applyDefine(d *Define, args []*SpecExpr) (Term, types.Type) {
 // applyFunc applies a Go function as a pure uninterpreted function (the same symbol the
 // executor uses for pure external calls).
 func (e *specEnv) applyFunc(fn *types.Func, recv *Term, args []*SpecExpr) (Term, types.Type) {
+	return e.applyFuncT(fn, recv, nil, args)
+}
+
+func (e *specEnv) applyFuncT(fn *types.Func, recv *Term, recvT types.Type, args []*SpecExpr) (Term, types.Type) {
 	x := e.x
 	sig := fn.Type().(*types.Signature)
 	var ts []Term
@@ -840,7 +946,7 @@ func (e *specEnv) applyFunc(fn *types.Func, recv *Term, args []*SpecExpr) (Term,
 		e.fail("function %s has no result", fn.Name())
 	}
 	rt := sig.Results().At(0).Type()
-	name := pureName(fn)
+	name := methodSym(fn, recvT)
 	if sig.Results().Len() > 1 {
 		name += "_r0"
 	}
@@ -848,6 +954,38 @@ func (e *specEnv) applyFunc(fn *types.Func, recv *Term, args []*SpecExpr) (Term,
 }
 
 func pureName(fn *types.Func) string { return "f_" + mangle(fn.FullName()) }
+
+// methodSym names the uninterpreted function of a method applied to a receiver of static type recvT.
+// A method promoted from an embedded struct (go/types' object.Type, object.Name, ...) gets one symbol
+// per static receiver type: (*types.Func).Type and (*types.Var).Type are different functions.
+func methodSym(fn *types.Func, recvT types.Type) string {
+	if recvT == nil {
+		return pureName(fn)
+	}
+	t := types.Unalias(recvT)
+	if p, ok := t.(*types.Pointer); ok {
+		t = types.Unalias(p.Elem())
+	}
+	n, ok := t.(*types.Named)
+	if !ok {
+		return pureName(fn)
+	}
+	sig := fn.Type().(*types.Signature)
+	if r := sig.Recv(); r != nil {
+		rt := types.Unalias(r.Type())
+		if p, ok := rt.(*types.Pointer); ok {
+			rt = types.Unalias(p.Elem())
+		}
+		if rn, ok := rt.(*types.Named); ok && rn.Obj() == n.Obj() {
+			return pureName(fn) // declared on this very type
+		}
+	}
+	pkg := ""
+	if n.Obj().Pkg() != nil {
+		pkg = n.Obj().Pkg().Path() + "."
+	}
+	return "f_" + mangle(pkg+n.Obj().Name()+"."+fn.Name())
+}
 
 // funcEnv is the spec environment of the function under verification at state st.
 func (x *Exec) funcEnv(st *State) *specEnv {
